@@ -143,7 +143,7 @@ PROPS = {
     'C17': {
         'correspondence': CORR_L1,
         'coq': ['theories/Props/C17.vo', 'theories/Inst/C17_now.vo', 'theories/PoolChg/PropsC17chg.vo', 'theories/PoolChg/Inst.vo'],
-        'profiles': [prof('pool', (60, 15), (1500, 60)), prof('poolchg', (80, 20), (2000, 60)), prof('poolchg', (60, 2), (600, 4), real=True)],
+        'profiles': [prof('pool', (60, 15), (1500, 60)), prof('poolchg', (80, 20), (2000, 60)), prof('poolchg', (60, 2), (600, 4), real=True), prof('progs:poolchg_busy.progs', (0, 60), (0, 1500))],
         'monitors': ['C17'], 'liveness': True, 'panics': False,
         'trusted_base': L1_TRUST + ['live/peak count of pool threads from the shim\'s spawn/exit hooks (every thread ever started is counted, also one the scheduler never listed)'],
         'assumptions': ['L1/Pool.v: fixed maximum inside the full scheduler model. PoolChg layer (coq/theories/PoolChg): the spawn decision (read max; lock-test-push), set-max and the three steps of despawn (read, pop, join) as an own small model with any number of racing spawners: threads <= max when the maximum is never lowered, threads <= max_ever always (nothing created with max_ever 0), threads <= max after a lowering made between phases (all spawners idle) even with calls racing the despawn, the join terminates, alive <= max after the join; C17chg_racy_lowering_refuted: a spawner that read the old maximum pushes after lowering+despawn returned (the race observed on the real crate, outside the property\'s quantification); holds for every interleaving if the maximum were read under the threads lock. Harness: maximum changes (M<n>/m<n> of the poolchg profile: set the maximum, despawn_threads_if_overloaded, bounded wake-up loop when raising) are exercised, not modelled. The counts are checked after changes made between phases (nothing queued, running or busy: what the property quantifies over); a lowering that races with scheduling calls can leave one thread above the new maximum on the unchanged code (the spawn decision reads the maximum before it takes the threads lock) and is only checked for "despawn returns"'],
